@@ -705,10 +705,13 @@ theorem imported_subscriptions_empty :
     (imported s).subForPlan = [] ∧ (imported s).allocs = [] ∧ (imported s).payouts = [] ∧ (imported s).payQ = [] ∧
     (imported s).payForAcc = [] ∧ (imported s).payForNode = [] ∧ (imported s).payForAccNode = [] ∧ (imported s).subCount = none := by
   imp_proj; simp
+/-- The SDK side is kept; the imported state is an uncommitted genesis: all four price-bound `modified` flags are
+set (`setNodeParams`), so the first `endBlock` after the import sweeps the node prices. -/
 theorem imported_sdk :
     (imported s).bank = s.bank ∧ (imported s).supply = s.supply ∧ (imported s).time = s.time ∧ (imported s).height = s.height ∧
     (imported s).keyed = s.keyed ∧ (imported s).mintMax = s.mintMax ∧ (imported s).mintMin = s.mintMin ∧
-    (imported s).mintRate = s.mintRate ∧ (imported s).minterInfl = s.minterInfl ∧ (imported s).modified = {} ∧ (imported s).events = [] := by
+    (imported s).mintRate = s.mintRate ∧ (imported s).minterInfl = s.minterInfl ∧
+    (imported s).modified = { maxGB := true, minGB := true, maxHr := true, minHr := true } ∧ (imported s).events = [] := by
   imp_proj; simp
 end proj
 
